@@ -1016,6 +1016,9 @@ class PureGen:
         self.objects = objects and rnd.random() < 0.5      # attribute state o.v / o.w that exists before every statement
         self.vars = ['x', 'y', 'z']
         self.loopvars = 0
+        self.globs = rnd.random() < 0.3       # a module-level int variable gv, declared global and rebound by the function
+        if self.globs:
+            self.vars = self.vars + ['gv']
 
     def atom(self, scope):
         b = self.b
@@ -1158,6 +1161,9 @@ class PureGen:
         scope = self.vars + ['a', 'b']
         body = [b.node(kind='assign', fn=1, tgt=[v], e=b.expr(kind=k, **kw)) for v, k, kw in
                 (('x', 'name', dict(name='a')), ('y', 'const', dict(k=0)), ('z', 'const', dict(k=1)))]
+        if self.globs:
+            b.fns[0]['globals'] = ['gv']
+            body.append(b.node(kind='assign', fn=1, tgt=['gv'], e=b.expr(kind='const', k=1)))
         if self.objects:
             body.append(b.node(kind='newobj', fn=1, tgt=['o']))
             body.append(b.setattr_node(1, 'o', 'v', b.expr(kind='name', name='b')))
@@ -1167,6 +1173,7 @@ class PureGen:
             # the result observes a random non-empty subset of the variables: what is not observed is dead at the end,
             # so liveness mistakes of the converter are not masked by a "return everything" epilogue
             terms = [(b.expr(kind='name', name=v), w) for v, w in (('x', 1), ('y', 3), ('z', 7)) if self.r.random() < 0.55]
+            # (gv is never part of the result: what it holds is observed in the module after the call)
             if self.objects:
                 terms += [(b.attr('o', at), w) for at, w in (('v', 11), ('w', 13)) if self.r.random() < 0.6]
             if not terms:
